@@ -287,8 +287,10 @@ impl Track {
                     let mut e2 = e.clone();
                     e2.time -= timepos;
                     if e2.time < 0 {
-                        cc_values[e2.v1 as usize] = e2.v2;
-                        ch = e2.channel;
+                        if 0 <= e2.v1 && e2.v1 < 128 {
+                            cc_values[e2.v1 as usize] = e2.v2;
+                            ch = e2.channel;
+                        }
                         continue;
                     }
                     events.push(e2);
